@@ -9,7 +9,7 @@ from ..core import Ctx, property_info, rule
 from ..events import check_function, is_event_generator, node_events
 from ..model import AnalysisError, FuncInfo, norm_text, walk_no_nested
 from ..q import (
-    A, MUTATORS, call_name_of, attr_method_calls, is_call_to_self, is_self_attr, kwarg, names_in, root_name, self_attr_stores, stores,
+    A, MUTATORS, call_name_of, expand, leaves_at, raw_forms, attr_method_calls, is_call_to_self, is_self_attr, kwarg, names_in, root_name, self_attr_stores, stores,
     unparse,
 )
 
@@ -158,8 +158,9 @@ def writer_typestate(ctx: Ctx) -> None:
     # end_tag drains exactly the popped list into end_prefix_mapping
     drained = False
     for n in walk_no_nested(end_tag.node):
-        if isinstance(n, ast.For) and isinstance(n.iter, ast.Call) and isinstance(n.iter.func, ast.Attribute) \
-                and is_self_attr(n.iter.func.value, "pending_prefixes") and n.iter.func.attr == "pop":
+        it = expand(end_tag.node, n.iter) if isinstance(n, ast.For) else None
+        if isinstance(n, ast.For) and isinstance(it, ast.Call) and isinstance(it.func, ast.Attribute) \
+                and is_self_attr(it.func.value, "pending_prefixes") and it.func.attr == "pop":
             tgt = unparse(n.target)
             drained = any(is_call_to_self(c, "end_prefix_mapping") and c.args and unparse(c.args[0]) == tgt for c in calls_in(n))
     ctx.ob("end_tag: each popped prefix goes to end_prefix_mapping", drained, at=end_tag, construct="drain loop",
@@ -343,10 +344,12 @@ def declare_before_use(ctx: Ctx) -> None:
            msg="the element's own namespace may never get a prefix")
     # copy-on-push: the context pushed is a copy, and ns_map is rebound to it
     push = [c for c in attr_method_calls(stg.node, "ns_context", "append")]
-    ok = bool(push) and push[0].args and unparse(push[0].args[0]).replace(" ", "") in ("self.ns_map.copy()", "dict(self.ns_map)", "{**self.ns_map}")
+    COPIES = {"self.ns_map.copy()", "dict(self.ns_map)", "{**self.ns_map}"}
+    ok = bool(push) and push[0].args and bool({x.replace(" ", "") for x in raw_forms(stg, push[0], push[0].args[0])} & COPIES)
     ctx.ob("start_tag: pushes a copy of the in-scope map", ok, at=stg, node=push[0] if push else None, construct=None if push else "push copy",
            msg="child bindings would leak into the parent's scope")
-    rebind = [st for st, tgt, val in self_attr_stores(stg.node, "ns_map") if val is not None and "ns_context[-1]" in unparse(val)]
+    pushed = unparse(push[0].args[0]) if push and push[0].args else ""
+    rebind = [st for st, tgt, val in self_attr_stores(stg.node, "ns_map") if val is not None and ("ns_context[-1]" in unparse(val) or (isinstance(val, ast.Name) and unparse(val) == pushed))]
     ctx.ob("start_tag: self.ns_map rebound to the pushed copy", bool(rebind), at=stg, construct="ns_map rebinding", msg="bindings would go to the parent's map")
     et = ctx.repo.method(EH, "end_tag")
     restore = [st for st, tgt, val in self_attr_stores(et.node, "ns_map") if val is not None and "ns_context[-1]" in unparse(val)]
@@ -431,8 +434,10 @@ def who_may_write_map(ctx: Ctx) -> None:
         for c in calls_in(fi.node):
             k = kwarg(c, "ns_map")
             if k is not None:
-                txt = unparse(k).replace(" ", "")
-                ok = txt in ("namespaces.clean_prefixes(ns_map)ifns_mapelse{}", "clean_prefixes(ns_map)ifns_mapelse{}", "namespaces.clean_prefixes(ns_mapor{})", "clean_prefixes(ns_mapor{})")
+                leaves = leaves_at(fi, c, k)
+                # every value that can reach the writer is clean_prefixes(<user map>) (a fresh dict) or an empty dict - never the caller's own object
+                ok = bool(leaves) and all((isinstance(x, ast.Call) and call_name_of(x) == "clean_prefixes") or (isinstance(x, ast.Dict) and not x.keys) or (isinstance(x, ast.Call) and unparse(x.func) == "dict" and not x.args) for x in leaves) \
+                    and any(isinstance(x, ast.Call) and call_name_of(x) == "clean_prefixes" for x in leaves)
                 ctx.ob(f"{fi.qual.split(':')[1]}: user ns_map reaches the writer only through clean_prefixes()", ok, at=fi, node=c,
                        msg="the caller's dict would be shared with (and mutated by) the writer")
         if not ok:
